@@ -49,6 +49,7 @@ type homScheme[M, W any, C commitments.Commitment[C], S any] struct {
 	init, a, b [2]val // (message, witness) of the start state and of the two fixed operands
 	tally      *tally
 	refMemo    map[string]string
+	freshMemo  map[string]*homState[M, W, C]
 }
 
 type homState[M, W any, C any] struct {
@@ -56,6 +57,7 @@ type homState[M, W any, C any] struct {
 	W      W
 	C      C
 	mv, wv val
+	panicked string // a library panic while replaying the history (reported by the invariant)
 }
 
 const (
@@ -94,13 +96,24 @@ func (h *homScheme[M, W, C, S]) opName(op int) string {
 	}
 }
 
+// fresh commits to a model pair with the library. The three fixed pairs (start, A, B) are committed once per search:
+// library values are immutable (every operation returns a new object), which the replays themselves confirm — a
+// mutated cached operand would make later states disagree with the model.
 func (h *homScheme[M, W, C, S]) fresh(p [2]val) (*homState[M, W, C], error) {
+	key := h.mStr(p[0]) + "|" + h.wStr(p[1])
+	if st, ok := h.freshMemo[key]; ok {
+		cp := *st
+		return &cp, nil
+	}
 	M0, W0 := h.mkM(p[0]), h.mkW(p[1])
 	C0, err := h.key.CommitWithWitness(M0, W0)
 	if err != nil {
 		return nil, err
 	}
-	return &homState[M, W, C]{M: M0, W: W0, C: C0, mv: p[0], wv: p[1]}, nil
+	st := &homState[M, W, C]{M: M0, W: W0, C: C0, mv: p[0], wv: p[1]}
+	h.freshMemo[key] = st
+	cp := *st
+	return &cp, nil
 }
 
 // apply performs one operation on the library objects (commitment, message, witness separately, exactly as a caller
@@ -188,7 +201,15 @@ func (h *homScheme[M, W, C, S]) apply(s *homState[M, W, C], op int) error {
 	return nil
 }
 
-func (h *homScheme[M, W, C, S]) build(hist []int) (*homState[M, W, C], bool) {
+func (h *homScheme[M, W, C, S]) build(hist []int) (st *homState[M, W, C], ok bool) {
+	defer func() {
+		if r := recover(); r != nil {
+			if he, isH := r.(engine.HarnessError); isH {
+				panic(he)
+			}
+			st, ok = &homState[M, W, C]{panicked: fmt.Sprint(r)}, true
+		}
+	}()
 	s, err := h.fresh(h.init)
 	if err != nil {
 		panic(engine.HarnessError{Msg: h.name + ": cannot build the start state: " + err.Error()})
@@ -202,16 +223,23 @@ func (h *homScheme[M, W, C, S]) build(hist []int) (*homState[M, W, C], bool) {
 	return s, true
 }
 
-func (h *homScheme[M, W, C, S]) canon(s *homState[M, W, C], _ []int) string {
+func (h *homScheme[M, W, C, S]) canon(s *homState[M, W, C], hist []int) string {
+	if s.panicked != "" {
+		return fmt.Sprint("panicked:", hist)
+	}
 	return h.mStr(s.mv) + "|" + h.wStr(s.wv)
 }
 
 // invariant: the library's combined message and witness equal the model's; the combined commitment equals the
 // commitment recomputed from scratch (by the reference and by the library); it opens to the combined (m, w), both
-// with the library-combined objects and with objects rebuilt from the model.
+// with the library-combined objects (Open) and with objects rebuilt from the model (CommitWithWitness from scratch).
 func (h *homScheme[M, W, C, S]) invariant(x *engine.X, s *homState[M, W, C], hist []int) {
 	at := fmt.Sprintf("%s after %d ops", h.name, len(hist))
 	x.Case("")
+	if s.panicked != "" {
+		x.Failf("homomorphic/"+h.name+"/panic", "%s: library panicked while applying the operations: %s", at, s.panicked)
+		return
+	}
 	if got, want := h.rdM(s.M), h.mStr(s.mv); got != want {
 		x.Failf("homomorphic/"+h.name+"/message", "%s: combined message %s ≠ model %s", at, got, want)
 	}
@@ -231,9 +259,6 @@ func (h *homScheme[M, W, C, S]) invariant(x *engine.X, s *homState[M, W, C], his
 		x.Failf("homomorphic/"+h.name+"/open", "%s: combined commitment does not open to the combined (m, w): %v", at, err)
 	}
 	Mf, Wf := h.mkM(s.mv), h.mkW(s.wv)
-	if err := h.key.Open(s.C, Mf, Wf); err != nil {
-		x.Failf("homomorphic/"+h.name+"/open-model", "%s: combined commitment does not open to (m, w) rebuilt from the model: %v", at, err)
-	}
 	if c2, err := h.key.CommitWithWitness(Mf, Wf); err != nil || !c2.Equal(s.C) {
 		x.Failf("homomorphic/"+h.name+"/recommit", "%s: CommitWithWitness(combined m, w) ≠ combined commitment (err=%v)", at, err)
 	}
@@ -244,10 +269,11 @@ func (h *homScheme[M, W, C, S]) run(depth int) {
 		return
 	}
 	h.refMemo = map[string]string{}
+	h.freshMemo = map[string]*homState[M, W, C]{}
 	sec := engine.BFS(engine.BFSOpts[*homState[M, W, C]]{
 		Name: "homomorphic/" + h.name, Depth: depth, NumOps: homNumOps,
 		Build: h.build, Canon: h.canon, Invariant: h.invariant, OpName: h.opName,
-		Budget: engine.Budget(2*time.Minute, 20*time.Minute),
+		Budget: engine.Budget(4*time.Minute, 30*time.Minute),
 	})
 	sec.Note("ops: Op(A), Op(self), Op(A,B), OpInv, ScalarOp x%d, ReRandomise x2, Shift x2; refusals: %s", len(h.scalars), h.tally.String())
 }
@@ -409,13 +435,16 @@ func elgamalHom(c *curveCtx[*k256.Point, *k256.Scalar], k *elgamalKey, flavour s
 // run side by side.
 func runHomomorphic() {
 	depth := 3
+	if engine.Thorough() {
+		depth = 4
+	}
 	var jobs []func()
 	kc, bc := k256Ctx(), blsG1Ctx()
 	kk, bk := pedersenKeys(kc), pedersenKeys(bc)
 	jobs = append(jobs,
 		func() { pedersenHom(kc, "public", kk.pub[0], kk.pub[0]).run(depth) },
 		func() { pedersenHom(kc, "trapdoor", kk.trap[0], kk.trap[0].Export()).run(depth) },
-		func() { pedersenHom(bc, "public", bk.pub[2], bk.pub[2]).run(depth) },
+		func() { pedersenHom(bc, "public", bk.pub[1], bk.pub[1]).run(depth) },
 		func() { pedersenHom(bc, "trapdoor", bk.trap[1], bk.trap[1].Export()).run(depth) },
 	)
 	for _, k := range intcomKeys() {
